@@ -464,6 +464,11 @@ func (e *Engine) evalSelector(st *State, x *ast.SelectorExpr) []valOut {
 
 // mapPath names a map by location of its holder.
 func (e *Engine) mapPath(x ast.Expr, v *Val) string {
+	if id, ok := ast.Unparen(x).(*ast.Ident); ok {
+		if obj, ok := e.Info.Uses[id].(*types.Var); ok && obj.Pkg() != nil && obj.Parent() == obj.Pkg().Scope() {
+			return "g:" + obj.Name()
+		}
+	}
 	if v.Kind == KField || v.Kind == KGlobal {
 		return v.Path
 	}
